@@ -334,7 +334,11 @@ func C15(c *fw.Ctx) {
 				c.Inc("documents", "permuted-rejected-original", 1)
 			}
 			r := gen.Rng(c.Seed, c.ID, "perm", name)
-			for _, p := range permutations(len(blocks)-1, limit, r) {
+			lim := limit
+			if strings.HasPrefix(name, "limit-") && lim > 12 {
+				lim = 12 // these projects cost seconds each: 16 of them x 120 orders made the thorough tier take 20 minutes
+			}
+			for _, p := range permutations(len(blocks)-1, lim, r) {
 				moved := false
 				for i, x := range p {
 					if i != x {
